@@ -124,6 +124,7 @@ impl World {
                     let id = op["id"].as_u64().unwrap();
                     let p = op["prio"].as_i64().unwrap_or(0) as i32;
                     extra["id"] = json!(id);
+                    extra["prio"] = json!(p);
                     match conn.send_stream(sid(id)).set_priority(p) {
                         Ok(()) => json!({"k":"Ok"}),
                         Err(_) => json!({"k":"ClosedStream"}),
